@@ -12,7 +12,7 @@ OctetSweep(X, Fill) == {[i \in 1..4 |-> IF i = p THEN x ELSE f] : p \in 1..4, x 
 Edge8 == {0, 1, 2, 9, 10, 99, 100, 126, 127, 128, 129, 191, 192, 223, 224, 239, 240, 254, 255}
 MCSweep4Tiny == OctetSweep({0, 127, 128, 255}, {0})
 MCSweep4Q == OctetSweep(0..255, {0}) \cup OctetSweep(Edge8, {255})
-MCSweep4T == OctetSweep(0..255, {0, 255, 170})
+MCSweep4T == OctetSweep(0..255, {0, 255})
 MCBase4 == {<<0, 0, 0, 0>>, <<255, 255, 255, 255>>, <<10, 1, 2, 3>>, <<192, 168, 1, 77>>, <<128, 0, 0, 1>>,
             <<127, 255, 255, 254>>, <<224, 0, 0, 251>>, <<239, 129, 2, 3>>, <<240, 0, 0, 1>>, <<172, 16, 254, 0>>,
             <<1, 0, 0, 0>>, <<223, 255, 255, 255>>}
